@@ -813,7 +813,12 @@ func writeFieldBodyCount(name string, typ FieldType, w io.Writer, settings Gener
 			writeLineWithTabs(w, "bodyLen += len(%ASGN) * "+strconv.Itoa(int(sz)), depth, name)
 			return
 		}
-		writeLineWithTabs(w, "for _, elem := range %ASGN {", depth, name)
+		if typeNeedsElem(typ.Array.Simple, settings) {
+			writeLineWithTabs(w, "for _, elem := range %ASGN {", depth, name)
+		} else {
+			// the size of an enum does not depend on the element: an unused elem does not compile
+			writeLineWithTabs(w, "for range %ASGN {", depth, name)
+		}
 		writeFieldBodyCount("elem", *typ.Array, w, settings, depth+1)
 		writeLineWithTabs(w, "}", depth)
 	} else if typ.Map != nil {
